@@ -27,8 +27,8 @@ REQUIRED = ['codec_roundtrip', 'codec_reserialize_stable', 'to_from_dict_roundtr
             'representable_serializable', 'codec_save_or_faithful', 'codec_faithful_iff_serializable', 'codec_set_reloads',
             'codec_reserved_key_reloads', 'codec_reserved_callable_reloads',
             'blt_roundtrip', 'blt_parse_total', 'blt_loaded_indices_valid', 'blt_former_foreign_errors',
-            'Stv.stv_nicks_distinct', 'Stv.stv_roundtrip', 'Stv.stv_header_roundtrip', 'Stv.stv_error_kinds', 'Stv.stv_header_foreign_witness', 'Stv.stv_nick_end_witness', 'Stv.stv_empty_ballot_witness',
-            'Stv.stv_roundtrip_unconditional_witness']
+            'Stv.stv_nicks_distinct', 'Stv.stv_nicks_nonempty', 'Stv.stv_roundtrip', 'Stv.stv_dump_refuses', 'Stv.stv_header_roundtrip',
+            'Stv.stv_parse_total', 'Stv.stv_former_foreign_errors', 'Stv.stv_end_and_empty_ballot_reload']
 REQUIRED_COUNTERS = ['codec_frac', 'codec_dec', 'codec_tuple', 'codec_fset', 'codec_sdict', 'codec_gdict', 'codec_obj', 'codec_callable',
                      'codec_depth_4', 'unrepresentable', 'codec_plain_set', 'codec_reserved_key',
                      'class_rt', 'class_bad', 'class_signatures', 'class_sensitive', 'sens_LargestRemainder_accept_equal',
@@ -37,7 +37,9 @@ REQUIRED_COUNTERS = ['codec_frac', 'codec_dec', 'codec_tuple', 'codec_fset', 'co
                      'blt_weight_dec', 'blt_weight_frac', 'blt_weight_proper_fraction', 'blt_person', 'blt_strname', 'blt_empty_ballot',
                      'blt_text', 'mut_truncate_chars', 'mut_truncate_lines', 'mut_junk_token', 'mut_index_out_of_range',
                      'mut_zero_inside', 'mut_handmade',
-                     'stv_rt', 'stv_blt_mode', 'stv_own_mode', 'stv_duplicate_initials', 'stv_many_candidates', 'stv_weight_below_one', 'stv_withdrawn', 'stv_weight_frac', 'stv_weight_dec',
+                     'stv_rt', 'stv_blt_mode', 'stv_own_mode', 'stv_duplicate_initials', 'stv_many_candidates', 'stv_weight_below_one',
+                     'stv_title_none', 'stv_empty_ballot_w1', 'stv_nick_end', 'stv_name_no_initials', 'stv_decimal_exponent',
+                     'stv_writer_must_refuse', 'stv_withdrawn', 'stv_weight_frac', 'stv_weight_dec',
                      'stv_text', 'mut_header_junk', 'stv_quota_registry', 'stv_header_directed']
 RULE = ('codec: random value trees of depth <= 4 over atoms (None/bool/int up to 10^30/float/str incl. unicode and identifier-like), '
         'Fraction, Decimal, list, tuple, frozenset, str-keyed and general dicts, objects (Person, PoliticalParty, NoneOfTheAbove, '
@@ -64,15 +66,16 @@ NOT_VERIFIED = ['lexing of BLT/STV text (strip, split, "#" comments, quotes, str
                 'WFval (hypothesis of codec_save_or_faithful) lists invariants of live Python values plus one signature fact — no constructor '
                 'parameter named type/class/callable — which the harness asserts by reflection on every run (op class_sig)',
                 'frozenset iteration order (compared order-free)',
-                'STV: the system header (_dump_system / _create_system: title, method, quota, seats, random), nicknames, candidate lines, ballots=, '
-                'unordered ballot lines and end are modelled at token level; BLT mode inside STV, the ordered format (order=) and name_to_initials '
-                '(regex, str.lower) are not — candidates come with their initials, header values with their isdigit()/int() classification; '
-                'math.log in the ordinal nickname length is modelled as the least k with 26^k >= n; the objects _create_evaluator builds are '
-                'summarised as (title, seats, quota, mandatory, tie-break) and compared with the loaded system through that summary only; '
-                'lexing hazards of header text (#, edge whitespace in title / names) are outside the token model (open STV findings)']
-UNPROVED = [            'stv_parse_total (false of the current reader: ValueError / ZeroDivisionError / TypeError ...; Stv.stv_error_kinds holds for the section)',
-            'stv_roundtrip holds for systems of the shape VotingSystem?(FixedSeatCount?(TieBreaking?(TransferableVoteSelector))) only; other '
-            'evaluator trees (which _dump_system silently writes partially or refuses) are covered by the correspondence of dumpSys, not by a theorem']
+                'STV: the system header (_dump_system / _load_system / _create_system: title, method, quota, seats, random), nicknames, '
+                'candidate lines, ballots=, unordered ballot lines and end are modelled at token level; BLT content inside STV, the ordered '
+                'format (order=) and name_to_initials (regex, str.lower) are not — candidates come with their initials, header values with '
+                'their isdecimal()/int() classification, names and title with the flag whether _header_text lets them through; math.log in '
+                'the ordinal nickname length is modelled as the least k >= 1 with 26^k >= n; the objects _create_evaluator builds are '
+                'summarised as (title, seats, quota, mandatory, tie-break) and compared with the loaded system through that summary only']
+UNPROVED = ['stv_roundtrip holds for systems of the shape VotingSystem?(FixedSeatCount?(TieBreaking?(TransferableVoteSelector))) only; other '
+            'evaluator trees (which _dump_system silently writes partially or refuses) are covered by the correspondence of dumpSys, not by a theorem',
+            'stv_parse_total is stated up to the constructs outside the STV token model (BLT content inside STV, the ordered format order=): '
+            'for those the exception type is checked by the oracle only']
 EXHAUSTIVE = {'thorough': True}
 
 # ------------------------------------------------------------------------------------------------ guards
@@ -694,38 +697,22 @@ def _initials(name):
 
 
 def _haz_stv(case):
-    """features of an election the STV text form is known to mangle (at most one per generated case)"""
+    """texts the `key=value` header lines of the STV form cannot carry: the writer may refuse them (NotSupportedInSTV),
+    it must not alter them"""
     doc, sysd = case['doc'], case.get('sys')
     h = set()
-    for _, w in doc['ballots']:
-        x = IO.weight_py(w)
-        if sysd is not None:
-            s = str(x)
-            if x != 1 and not ('/' in s or '.' in s or s.isdigit()):
-                h.add('weight_spelling')
     if sysd is not None:
-        names = [n for n, _, _ in doc['cands']]
-        inits = [_initials(n) for n in names]
-        dup = len(set(inits)) != len(inits)
-        for n in names:
+        for n, _, _ in doc['cands']:
             if not n.strip():
                 h.add('name_blank')
-            elif not _initials(n) and not dup:
-                h.add('name_no_initials')
             elif '#' in n:
                 h.add('name_hash')
             elif n != n.strip():
                 h.add('name_ws_edge')
-        if not dup and 'end' in inits:
-            e = inits.index('end')
-            if any(idx == [e] and IO.weight_py(w) == 1 for idx, w in doc['ballots']):
-                h.add('nick_end')
-        if any(not idx and IO.weight_py(w) == 1 for idx, w in doc['ballots']):
-            h.add('empty_ballot_w1')
         if sysd.get('wrap', True):
             t = doc.get('title')
             if t is None:
-                h.add('title_none')
+                pass
             elif '#' in t:
                 h.add('title_hash')
             elif t != t.strip():
@@ -746,8 +733,6 @@ def _oracle_stv_rt(case, obs):
 def _model_stv_rt(case):
     if case.get('sys') is None:
         return None                      # BLT mode: the content is the BLT model's business (blt_rt)
-    if _haz_stv(case) & {'name_hash', 'name_ws_edge', 'name_blank', 'name_no_initials', 'title_hash', 'title_ws_edge'}:
-        return None                      # the written line does not lex back to what was written: outside the token model
     d, sysd = case['doc'], case['sys']
     tree = {'tv': [True, True, True], 'quota': sysd.get('quota', 'droop'), 'mandatory': bool(sysd.get('mandatory'))}
     rnd = sysd.get('random')
@@ -756,8 +741,10 @@ def _model_stv_rt(case):
     if sysd.get('seats') == 'fixed':
         tree = {'fixed': d['seats'], 'e': tree}
     if sysd.get('wrap', True):
-        tree = {'voting': IO.stv_sval(str(d.get('title'))), 'e': tree}
-    line = {'op': 'stv_dump', 'sys': tree,
+        t = d.get('title')
+        tree = {'voting': None if t is None else IO.stv_sval(t), 'e': tree,
+                'title_ok': t is None or IO.stv_carriable(t)}
+    line = {'op': 'stv_dump', 'sys': tree, 'names_ok': all(IO.stv_carriable(n, False) for n, _, _ in d['cands']),
             'doc': {'cands': [[n, bool(w), IO.stv_initials(n)] for n, w, _ in d['cands']],
                     'ballots': [[idx, IO.stv_weight_model(w)] for idx, w in d['ballots']]}}
     if sysd.get('seats') == 'arg':
@@ -780,7 +767,9 @@ def _stv_section(loaded):
 
 def _compare_stv_rt(case, iobs, mobs):
     if iobs['dump'] != 'ok':
-        return f"dump: impl raises {iobs['dump']['exc']}"
+        if 'dump' in mobs and mobs['dump'].get('err') == iobs['dump']['err']:
+            return None
+        return f"dump: impl raises {iobs['dump']['exc']}, model {json.dumps(mobs)[:120]}"
     tk = IO.stv_tokenise(iobs['text'])
     if tk is None:
         return None
@@ -860,7 +849,6 @@ def _gen_stv_rt(rng, n):
             for b in doc['ballots']:
                 if rng.random() < 0.25:
                     b[1] = {'k': 'frac', 'v': rng.choice(['1/2', '7/3'])}
-            doc['ballots'] = [b for b in doc['ballots'] if b[0] or IO.weight_py(b[1]) != 1]
             haz = rng.choice([None, None, None, 'name', 'name', 'empty_ballot_w1', 'weight_spelling', 'title_none', 'title_hash',
                               'title_ws_edge', 'nick_end'])
             if haz == 'name' and doc['cands']:
@@ -893,6 +881,19 @@ def _gen_stv_rt(rng, n):
             inits = [_initials(x[0]) for x in doc['cands']]
             if len(set(inits)) != len(inits):
                 c['_tags'].append('stv_duplicate_initials')
+            t = c['_tags']
+            if c['sys'].get('wrap', True) and doc.get('title') is None:
+                t.append('stv_title_none')
+            if any(not idx and IO.weight_py(w) == 1 for idx, w in doc['ballots']):
+                t.append('stv_empty_ballot_w1')
+            if 'end' in inits and any(idx == [inits.index('end')] and IO.weight_py(w) == 1 for idx, w in doc['ballots']):
+                t.append('stv_nick_end')
+            if any(x[0].strip() and not _initials(x[0]) for x in doc['cands']):
+                t.append('stv_name_no_initials')
+            if any(w['k'] == 'dec' and 'E' in w['v'] for _, w in doc['ballots']):
+                t.append('stv_decimal_exponent')
+            if _haz_stv(c):
+                t.append('stv_writer_must_refuse')
         yield c
 
 
@@ -998,9 +999,7 @@ def compare(case, iobs, mobs):
 CLASS_CLAUSE_HAZ = {
     'outcome_differs': ['validator_defaultdict'], 'json_outcome_differs': ['validator_defaultdict'],
     'dict_differs': ['validator_defaultdict'], 'json_dict_differs': ['validator_defaultdict'],
-    'load_raises': ['star_unscored_name'],
-    'json_raises': ['star_unscored_name'],
-    'save_raises': ['openlist_quota_fraction'],
+    'load_raises': [], 'json_raises': [], 'save_raises': [],
 }
 
 
@@ -1175,7 +1174,8 @@ LEVEL_TEXT = ('The dict codec of persist.py (serialize_value / deserialize_value
               'an identical re-serialisation; every well-formed BLT document reloads unchanged (blt_roundtrip: seats, names, any withdrawn subset, '
               'int/Decimal/Fraction weights, title); on ANY token lines the BLT parser returns a document or raises the parse error '
               '(blt_parse_total) and a returned document names listed candidates only (blt_loaded_indices_valid); STV nicknames never collide and '
-              'the STV section round-trips under explicit conditions (Stv.stv_roundtrip), whose necessity is proved on witnesses (open STV findings). '
+              'a whole STV file (system header, candidates, ballots incl. empty ones, Decimal weights, title None) round-trips (Stv.stv_roundtrip) and '
+              'the STV reader raises only STVParseError / NotImplementedError on any token lines (Stv.stv_parse_total). '
               'All 109 classes carrying to_dict, the STV system header and text lexing are covered by the differential correspondence and a direct '
               'round-trip / outcome / exception-type oracle on every run.')
 LEVEL_NOTE = ('Trusted: Lean kernel + propext/Classical.choice/Quot.sound; the correspondence harness (generators, tokeniser, canonicalisation); '
